@@ -181,6 +181,7 @@ type Op struct {
 	Msg    sdk.Msg
 	Fee    sdk.Coins
 	Kind   string
+	More   []sdk.Msg // further messages of the same (atomic) transaction; scenario ops only
 }
 
 type OpGen struct {
@@ -438,6 +439,22 @@ func genExit(g *G) *Op {
 	out := ""
 	if p.PoolParams.UseOracle && g.Int("exitsingle", 0, 2) == 0 {
 		out = p.PoolAssets[g.Pick("exitdenom", len(p.PoolAssets))].Token.Denom
+	}
+	if p.PoolParams.UseOracle && g.Int("exitwhole", 0, 7) == 0 {
+		// a single-asset exit worth exactly one whole reserve of that asset (give or take a unit of shares): the
+		// share of the pool's value that this reserve represents
+		a := p.PoolAssets[g.Pick("exitwholedenom", len(p.PoolAssets))]
+		tvl := sdkmath.LegacyZeroDec()
+		for _, x := range p.PoolAssets {
+			tvl = tvl.Add(g.priceOf(x.Token.Denom).MulInt(x.Token.Amount))
+		}
+		if tvl.IsPositive() {
+			s0 := g.priceOf(a.Token.Denom).MulInt(a.Token.Amount).MulInt(p.TotalShares.Amount).Quo(tvl).TruncateInt().AddRaw(int64(g.Int("exitwholed", -1, 1)))
+			if s0.IsPositive() && s0.LTE(have) {
+				shares, out = s0, a.Token.Denom
+				g.H.Labels["exit-worth-a-whole-reserve"]++
+			}
+		}
 	}
 	return &Op{Signer: u, Kind: "amm.exit", Msg: &ammtypes.MsgExitPool{Sender: u.Addr.String(), PoolId: p.PoolId, MinAmountsOut: sdk.Coins{}, ShareAmountIn: shares, TokenOutDenom: out}}
 }
